@@ -46,6 +46,10 @@ CHECKS.update({
  "C11": dict(cat="model_checking", text="Single.tla: the m-selection and error rule is model-checked for every length 0..4200; TLC generates byte contents whose poker P is dialled across 0.01 and structured contents that one pattern length sees and another does not, with the expected verdict from the poker definition; a sweep over every length 0..4096 (stride in quick) with seeded contents is judged by TLC from pattern histograms; junk behind the requested bytes must never be requested.", ref="4 C11", note="contents with |P-0.01|<1e-9 accepted either way; trusts RealFn", tech="TLA+ spec (Single/GenSingle) model-checked by TLC; TLC-generated contents replayed into SingleDetect; length sweep validated by TLC (TraceSingle)"),
  "C14": dict(cat="model_checking", text="StuckAt.tla checks the composition argument on the model (<=64 distinct byte values per sample force poker m=8 below 0.01 for every period 1..64 and both sample sizes; a never-passing item forces a false verdict naming it). The real workflows are run end to end with the real runners on constant and periodic streams (all six workflow functions; the (00)^63 01 stream reaches the block on which the pinned commit crashed) and SingleDetect on 0x00../0xFF.. at every length; TLC validates rejection, error, termination.", ref="4 C14", note="periodic contents are sampled against the code; sequential Factory/PowerOn runs only in thorough", tech="TLA+ composition lemma (StuckAt) checked by TLC; degenerate streams replayed into the real workflows; traces validated by TLC (TraceWorkflow/TraceSingle)"),
 })
+CHECKS.update({
+ "C15": dict(cat="model_checking", text="Registry.tla fixes the numbering, the runner defaults and the two rounds. Byte-aligned TLC vectors (every byte; generator sequences of 128..4096 (20000) bytes) go through the byte-oriented, bit-oriented and runner entry points and must be bit-identical and equal to the spec value; on 1121..125000-byte strings with special byte runs TLC judges bit for bit that runner i = Round15[i] = Round12[i] = entry point of test i at the standard's default and differs from neighbouring documented parameters; ReadGroup = byte expansion.", ref="4 C15", note="neighbour discrimination only where the parameters differ numerically on the input (counted)", tech="TLA+ spec (Registry) + TLC-generated byte-aligned vectors replayed into all entry points; registry passes validated by TLC (TraceRegistry)"),
+ "C16": dict(cat="model_checking", text="Registry!ResultOK (finite, [0,1] up to 1e-9, P = 2 min(Q,1-Q) for the two-sided tests, Q = P for chi-square tests, Pass <=> P >= 0.01 with min(P1,P2) for the overlapping test) is judged by TLC on every result of all fifteen tests with every documented parameter and of the registry runners, on extreme descriptors (constant, alternating, single transition, one-hot, heavy bias, balanced halves, periodic) and seeded inputs from each test's minimum length to 10^6 (10^7) bits.", ref="4 C16", note="inputs are descriptor-generated, not enumerated; panics count as violations", tech="TLA+ result predicate (Registry!ResultOK) evaluated by TLC on traces recorded from the real tests (TraceRegistry)"),
+})
 PENDING = {}
 
 def main():
